@@ -5,7 +5,9 @@
    Statements only; proofs are in Calc/Life2Proofs.v.
 
    Vocabulary (Calc/Life2Proofs.v):
-     key                      KLeaf id | KSched c   (TSchedDtor carries only the context)
+     key                      KLeaf id | KSched c | KAlloc a   (TSchedDtor carries only the context; [stage 5] KAlloc a =
+                              the blocks of allocator a: TAlloc a = start, TFree a = dtor, a block counts as
+                              completed-alive while it is held, no capacity bound)
      nr k e st / nd k e st    running / completed-but-alive operation states of key k inside st
      cap k e                  number of leaves of e with key k  (<= 1 for KLeaf id when NoDup (leaf_ids e))
      life  k m r d tr r' d'   coarse life-cycle automaton (start: r+d<m; touch: r>=1; dtor: d>=1; silent completion)
@@ -22,12 +24,12 @@ Import Calc2.
 (* ---- the three entry points: the events of a call are a legal, JUSTIFIED continuation of every key's life
         cycle, from the state read off the operation state before the call to the one read off after ---- *)
 
-Theorem C02_calc2_start_life : forall k rho ext e en cx st tr r, Rok rho e ->
+Theorem C02_calc2_start_life : forall k rho ext e en cx st tr r, (is_alloc k = true -> ext = true) -> Rok rho e ->
   start e en cx = (st, tr, r) -> lifeS k rho ext e OFin tr st.
 Proof. exact start_life. Qed.
 Print Assumptions C02_calc2_start_life.
 
-Theorem C02_calc2_stop_life : forall k rho ext e st0 cx st tr r, Rok rho e -> wf2 e st0 ->
+Theorem C02_calc2_stop_life : forall k rho ext e st0 cx st tr r, (is_alloc k = true -> ext = true) -> Rok rho e -> wf2 e st0 ->
   stop e st0 cx = (st, tr, r) -> lifeS k rho ext e st0 tr st.
 Proof. exact stop_life. Qed.
 Print Assumptions C02_calc2_stop_life.
@@ -74,7 +76,7 @@ Proof. exact C02_step. Qed.
 Print Assumptions C02_calc2_step.
 
 Theorem C02_calc2_step_start : forall k e pre,
-  lifeQ k (cap k e) (rho_of e) false 0 0 (tevs (r_tr (run e pre [])))
+  lifeQ k (cap k e) (rho_of e) (is_alloc k) 0 0 (tevs (r_tr (run e pre [])))
         (nr k e (r_st (run e pre []))) (nd k e (r_st (run e pre []))).
 Proof. exact C02_step_start. Qed.
 Print Assumptions C02_calc2_step_start.
@@ -92,7 +94,7 @@ Proof. exact C02_dtor_after_completion. Qed.
 Print Assumptions C02_calc2_dtor_after_completion.
 
 Theorem C02_calc2_start_no_completion : forall k e pre,
-  rho_key k (rho_of e) = false ->
+  rho_key k (rho_of e) = false -> is_alloc k = false ->
   nr k e (r_st (run e pre [])) = cnt k AStart (tevs (r_tr (run e pre []))) /\
   nd k e (r_st (run e pre [])) = 0%nat /\ cnt k ADtor (tevs (r_tr (run e pre []))) = 0%nat.
 Proof. exact C02_start_no_completion. Qed.
@@ -113,14 +115,14 @@ Print Assumptions C02_calc2_life.
 (* what a legal life cycle means in event counts *)
 Theorem C02_calc2_life_prefix_counts : forall k m tr r' d', life k m 0 0 tr r' d' ->
   forall p q, tr = p ++ q ->
-  (cnt k ADtor p <= cnt k AStart p)%nat /\ (cnt k AStart p <= cnt k ADtor p + m)%nat.
+  (cnt k ADtor p <= cnt k AStart p)%nat /\ (is_alloc k = false -> (cnt k AStart p <= cnt k ADtor p + m)%nat).
 Proof. exact life_prefix_counts. Qed.
 Print Assumptions C02_calc2_life_prefix_counts.
 
 Theorem C02_calc2_life_at_event : forall k m tr r' d', life k m 0 0 tr r' d' ->
   forall p t q, tr = p ++ t :: q ->
   match ev_act k t with
-  | Some AStart => (cnt k AStart p < cnt k ADtor p + m)%nat
+  | Some AStart => (cnt k AStart p < cnt k ADtor p + m)%nat \/ is_alloc k = true
   | Some ATouch => (cnt k ADtor p < cnt k AStart p)%nat
   | Some ADtor => (cnt k ADtor p < cnt k AStart p)%nat
   | None => True
@@ -162,14 +164,14 @@ Print Assumptions C02_calc2_sched.
 
 (* (d) all_destroyed_at_end: nothing leaked *)
 Theorem C02_calc2_all_destroyed_at_end : forall k e pre script,
-  r_roots (exec e pre script) = 1%nat ->
+  r_roots (exec e pre script) = 1%nat \/ cthrows e = true ->
   r_st (exec e pre script) = OFin /\
   life k (cap k e) 0 0 (tevs (r_tr (exec e pre script))) 0 0.
 Proof. exact C02_all_destroyed_at_end. Qed.
 Print Assumptions C02_calc2_all_destroyed_at_end.
 
 Theorem C02_calc2_balanced_at_end : forall k e pre script,
-  r_roots (exec e pre script) = 1%nat ->
+  r_roots (exec e pre script) = 1%nat \/ cthrows e = true ->
   cnt k AStart (tevs (r_tr (exec e pre script))) = cnt k ADtor (tevs (r_tr (exec e pre script))).
 Proof. exact C02_balanced_at_end. Qed.
 Print Assumptions C02_calc2_balanced_at_end.
@@ -181,9 +183,61 @@ Theorem C02_calc2_root_dtor_last : forall e pre script,
      r_tr (exec e pre script) =
        p ++ XRoot o n cx :: repeat XSkip j ++ XRootDtor :: map XT (dtor e (r_st (run e pre script))) /\
      Forall plain_x p /\ Forall is_dtor_ev (dtor e (r_st (run e pre script)))) /\
-  (r_roots (exec e pre script) = 0%nat -> Forall plain_x (r_tr (exec e pre script))).
+  (r_roots (exec e pre script) = 0%nat -> cthrows e = false -> Forall plain_x (r_tr (exec e pre script))) /\
+  (cthrows e = true -> exists j, r_tr (exec e pre script) = map XT (fst (conn e 0)) ++ XConnectThrow :: repeat XSkip j).
 Proof. exact C02_root_dtor_last. Qed.
 Print Assumptions C02_calc2_root_dtor_last.
+
+(* ---- [stage 5] blocks: allocate() obtains its memory from exactly the allocator visible at that point and
+   returns it to the same allocator, also on throwing paths ---- *)
+
+(* per allocator a: on every prefix #TFree a <= #TAlloc a; when the root completed (and was destroyed) or the
+   root connect threw, #TFree a = #TAlloc a *)
+Theorem C02_calc2_blocks_balanced : forall e pre script a,
+  (forall p q, tevs (r_tr (exec e pre script)) = p ++ q -> (nfree a p <= nalloc a p)%nat) /\
+  (r_roots (exec e pre script) = 1%nat \/ cthrows e = true ->
+   nfree a (tevs (r_tr (exec e pre script))) = nalloc a (tevs (r_tr (exec e pre script)))).
+Proof. exact C02_blocks_balanced. Qed.
+Print Assumptions C02_calc2_blocks_balanced.
+
+(* which allocator: a started allocate takes its block from e_alloc of the environment it is started in and keeps
+   that environment in its node; its destructor returns the block to e_alloc of the stored environment; connect
+   takes it from the allocator visible at the node; only with_allocator changes e_alloc; the root answers 0 *)
+Theorem C02_calc2_alloc_start_id : forall s en cx, sthrows (Un UAllocate s) = false ->
+  exists sc tr0 r, start (Un UAllocate s) en cx = (ONode (mk_nst PFirst en) sc OFin, TAlloc (e_alloc en) :: tr0, r).
+Proof. exact alloc_start_id. Qed.
+Print Assumptions C02_calc2_alloc_start_id.
+
+Theorem C02_calc2_alloc_dtor_id : forall s ns sc x,
+  dtor (Un UAllocate s) (ONode ns sc x) = dtor s sc ++ [TFree (e_alloc (n_env ns))].
+Proof. exact alloc_dtor_id. Qed.
+Print Assumptions C02_calc2_alloc_dtor_id.
+
+Theorem C02_calc2_alloc_conn_id : forall s al, exists tr, fst (conn (Un UAllocate s) al) = TAlloc al :: tr.
+Proof. exact alloc_conn_id. Qed.
+Print Assumptions C02_calc2_alloc_conn_id.
+
+Theorem C02_calc2_un_env_alloc : forall kk en,
+  e_alloc (un_env kk en) = match kk with UWithAlloc a => a | _ => e_alloc en end.
+Proof. exact un_env_alloc. Qed.
+Print Assumptions C02_calc2_un_env_alloc.
+
+Theorem C02_calc2_env_alloc_kept : forall en b v,
+  e_alloc (env_with_stop en b) = e_alloc en /\ e_alloc (env_bind en v) = e_alloc en /\
+  e_alloc (env_own en b) = e_alloc en /\ e_alloc (root_env b) = 0%nat.
+Proof. exact env_alloc_kept. Qed.
+Print Assumptions C02_calc2_env_alloc_kept.
+
+(* the stop request recorded in a completed allocate does not change what the automata read *)
+Theorem C02_calc2_sim_cnt : forall k e st st', sim e st st' -> nr k e st' = nr k e st /\ nd k e st' = nd k e st.
+Proof. exact sim_cnt. Qed.
+Print Assumptions C02_calc2_sim_cnt.
+
+(* connect(e): the blocks it takes are returned if it throws *)
+Theorem C02_calc2_sconn_life : forall k rho ext, (is_alloc k = true -> ext = true) ->
+  forall e al m r d, sthrows e = true -> lifeQ k m rho ext r d (sconn e al) r d.
+Proof. exact sconn_life. Qed.
+Print Assumptions C02_calc2_sconn_life.
 
 (* ---- a concrete run:
    let_value(leaf 1, when_all(stop_when(leafN 2, leaf 3),
@@ -269,3 +323,23 @@ Example C02_calc2_ex_throw_counts :
   (cnt (KLeaf 3) AStart tr, cnt (KLeaf 3) ADtor tr) = (1, 1)%nat /\
   (cnt (KLeaf 4) AStart tr, cnt (KLeaf 4) ADtor tr) = (0, 0)%nat.
 Proof. vm_compute. repeat split. Qed.
+
+(* ---- [stage 5] blocks and throwing connects:
+   with_allocator(7, allocate(let_value(leaf 1, with_allocator(9, when_all(allocate(leaf 2), LeafC 3)))))
+   the outer allocate takes a block from 7; leaf 1 completes: let_value destroys it and connects the successor,
+   whose connect throws after allocate(leaf 2) took a block from 9 -- it is returned to 9, leaf 2 is never
+   started; the error completes the root, whose destruction returns the outer block to 7 ---- *)
+Definition C02_calc2_ex_a : sexpr :=
+  Un (UWithAlloc 7) (Un UAllocate (Bin BLetV (Leaf 1)
+     (Un (UWithAlloc 9) (Bin BWhenAll (LeafC 3) (Un UAllocate (Leaf 2)))))).
+
+Example C02_calc2_ex_alloc_trace :
+  r_tr (exec C02_calc2_ex_a false [EvLeaf 1%nat (OVal 5) 0%nat; EvLeaf 2%nat (OVal 1) 0%nat]) =
+  [XT (TAlloc 7); XT (TLeafStart 1 false true 0 0 0 0); XT (TLeafDtor 1); XT (TAlloc 9); XT (TFree 9);
+   XRoot (OErr 78) 0 0; XSkip; XRootDtor; XT (TFree 7)].
+Proof. vm_compute. reflexivity. Qed.
+
+Example C02_calc2_ex_connect_throw :
+  r_tr (exec (Un UAllocate (Bin BStopWhen (Un UAllocate (Leaf 1)) (LeafC 2))) false [EvStop 0%nat; EvLeaf 1%nat (OVal 0) 0%nat]) =
+  [XT (TAlloc 0); XT (TAlloc 0); XT (TFree 0); XT (TFree 0); XConnectThrow; XSkip].
+Proof. vm_compute. reflexivity. Qed.
